@@ -190,7 +190,11 @@ func runLater(w *world, it *laterItem, st *stats, nested *[]laterItem) *failure 
 		return &failure{key: keptKey, entry: it.entry, preset: it.preset, exp: it.exp, obs: &ob,
 			what: fmt.Sprintf("continuation kept by wrapper %s (%s), late run #%d after the top-level execution had returned and other executions had run, did not execute the same remaining rules as an immediate run: %s", it.pend.label, it.pend.kind, it.runIdx, what)}
 	}
-	collectLater(it.exp.Deferred, o.pend, it.p, it.entry, it.preset, nested)
+	if it.runIdx == 1 {
+		// continuations kept during the first late run are followed up; those of the
+		// repeated runs are only compared by registration (else 3^depth late runs)
+		collectLater(it.exp.Deferred, o.pend, it.p, it.entry, it.preset, nested)
+	}
 	return nil
 }
 
@@ -607,6 +611,7 @@ func main() {
 			w := newWorld()
 			dq := &deferQueue{}
 			defer func() { dq.tick(w, st, true) }()
+			defer current[wi].Store(nil) // no more programs: nothing for the watchdog to judge
 			published := int64(0)
 			for !stop.Load() {
 				evalsPublished.Add(st.evals - published)
@@ -642,7 +647,7 @@ func main() {
 			}
 		}(wi)
 	}
-	// watchdog: a single program that does not finish within 60 s (mosdns looping
+	// watchdog: a single program that does not finish within 120 s (mosdns looping
 	// without ever calling a harness plugin) -> inconclusive with the program named
 	done := make(chan struct{})
 	go func() {
@@ -659,8 +664,8 @@ func main() {
 					b := beat[i].Load()
 					if p := current[i].Load(); b == last[i] && p != nil && b > 0 {
 						stuck[i]++
-						if stuck[i] >= 12 {
-							rep.Inconclusive("watchdog: program %s did not finish within 60 s (sequence execution neither ends nor reaches a harness plugin): %s", p.Origin, describe(p))
+						if stuck[i] >= 24 {
+							rep.Inconclusive("watchdog: program %s did not finish within 120 s (sequence execution neither ends nor reaches a harness plugin): %s", p.Origin, describe(p))
 							rep.Eval(int(evalsPublished.Load()))
 							rep.Finish()
 						}
